@@ -23,6 +23,7 @@
 -/
 import Aquatic.Model.UringRecv
 import Aquatic.Lemmas.Bytes
+import Aquatic.Props.C06
 
 namespace Aquatic.UringRecv.Props
 
@@ -234,6 +235,21 @@ theorem port_zero_ignored (ctx : Ctx) (v6 : Bool) (bufLen : Nat) (name payload :
 theorem payload_capacity :
     Generated.uringRequestBufLen - 16 - nameFieldLen false = 480 ∧
     Generated.uringRequestBufLen - 16 - nameFieldLen true = 468 := by decide
+
+
+/-! ### C06's no-amplification clause, on the bytes of the receive buffer -/
+
+/-- A source that holds no valid connection id obtains, from the io_uring worker, nothing or the
+16-byte connect reply to a datagram of at least 16 bytes - stated on the buffer the kernel wrote,
+not on an abstract (source, datagram) pair. -/
+theorem buffer_unauthenticated_only_connect (ctx : Ctx) (ip : Ip) (port : Nat) (payload : Bytes)
+    (hip : match ip with | .v4 a => a < 256 ^ 4 | .v6 hi lo => hi < 256 ^ 12 ∧ lo < 256 ^ 4)
+    (hport : port < 256 ^ 2) (hp : payload.length < 256 ^ 4) (k : ReplyKind) (tid : Nat)
+    (hno : C06.NoValidId ctx (canonical ip))
+    (h : handleBuf ctx (!ip.isV4) (kernelBuffer (!ip.isV4) Generated.uringRequestBufLen (sockaddr ip port) payload) = some (k, tid)) :
+    k = .connect ∧ replyLen k 0 0 = 16 ∧ replyLen k 0 0 ≤ payload.length := by
+  rw [handleBuf_is_handleUring ctx ip port payload hip hport hp] at h
+  exact C06.unauthenticated_only_connect_uring ctx ip port payload k tid hno h
 
 /-! ### non-vacuity -/
 
